@@ -84,6 +84,29 @@ theorem dest_exactly (src : List Item) (r : Run) (st : St) (k : String) :
     simp only [runRepaired, hk, find_todo src st k hk]
     cases src.find? (fun it => it.key == k) <;> rfl
 
+/-- a job whose command is killed by a signal is a failed run, even if it had already written its file: its record has
+a non-zero exit code, so its item is not stored (`postOf_isSome_iff`) and the job runs again (`invalid_cache_not_reused`). -/
+theorem killed_job_is_a_failed_run (r : Run) (j : String) (a s : Nat) (h : r.plan j = .killed s) (hs : 0 < s) :
+    (entOf r j a).code = -(s : Int) ∧ (entOf r j a).code ≠ 0 := by
+  have : (entOf r j a).code = -(s : Int) := by
+    unfold entOf
+    rw [h]
+    have : (-(s : Int)) ≠ 0 := by omega
+    simp [outcome, this]
+  exact ⟨this, by rw [this]; omega⟩
+
+theorem killed_item_not_stored (src : List Item) (r : Run) (st : St) (it : Item) (j : String) (s : Nat)
+    (hj : j ∈ jobNames it) (hex : j ∈ (runRepaired src r st).2) (h : r.plan j = .killed s) (hs : 0 < s) :
+    postOf .repaired (runRepaired src r st).1.cache r it = none := by
+  cases hp : postOf .repaired (runRepaired src r st).1.cache r it with
+  | none => rfl
+  | some v =>
+    have := (postOf_isSome_iff (runRepaired src r st).1.cache r it).mp (by rw [hp]; rfl) j hj
+    obtain ⟨e, he, hc, _⟩ := this
+    rw [((executed_once src r st j).1 hex).2] at he
+    cases he
+    exact absurd hc (killed_job_is_a_failed_run r j _ s h hs).2
+
 /-- "keys present only in the destination are left alone" (and so is every other existing entry) -/
 theorem dest_only_keys_untouched (src : List Item) (r : Run) (st : St) (k v : String) (h : st.dest k = some v) :
     (runRepaired src r st).1.dest k = some v := by
@@ -343,6 +366,11 @@ example : (runRepaired demoSrc runA demoSt).2 = ["m1", "m2", "e.0", "e.1"] ∧
   decide
 
 example : AllOk runOk := fun _ _ => rfl
+
+example : (runs [⟨"m", none⟩] emptySt [{ tag := "A", plan := fun _ => .killed 9 }, { tag := "A", plan := fun _ => .killed 9 }]).2 = [["m"], ["m"]] ∧
+    (runs [⟨"m", none⟩] emptySt [{ tag := "A", plan := fun _ => .killed 9 }]).1.dest "m" = none ∧
+    ((runs [⟨"m", none⟩] emptySt [{ tag := "A", plan := fun _ => .killed 9 }]).1.cache "m").map (·.code) = some (-9) := by
+  decide
 
 /-- D35 (pinned commit): a key present only in the destination makes the call raise. -/
 theorem dest_only_key_shipped_counterexample :
